@@ -303,7 +303,7 @@ def table(tier="quick"):
         fam="FCpReg")
     add("tucker_regressor", "tensorly.regression.TuckerRegressor",
         lambda d: (lambda X=d.arr(6, 3, 4), y=d.arr(6): (lambda m: (m.predict(X), m.weight_tensor_, m.tucker_weight_, m.vec_W_))(TuckerRegressor([2, 2], random_state=1, verbose=0, n_iter_max=3).fit(X, y))),
-        fam="FTuckerReg")
+        fam="FTuckerReg", opts=dict(alt=True))
     add("cp_plsr", "tensorly.regression.cp_plsr.CP_PLSR",
         lambda d: (lambda X=d.arr(6, 3, 4), Y=d.arr(6, 2): (lambda m: (m.predict(X), m.transform(X, Y), m.X_factors, m.Y_factors, m.coef_))(CP_PLSR(2, random_state=1).fit(X, Y))),
         fam="FPlsr")
@@ -481,7 +481,7 @@ def table(tier="quick"):
         fam="FCpReg")
     add("tucker_regressor_reg", "tensorly.regression.TuckerRegressor",
         lambda d: (lambda X=d.arr(6, 3, 4), y=d.arr(6): (lambda m: (m.predict(X), m.weight_tensor_, m.tucker_weight_, m.vec_W_))(TuckerRegressor([2, 2], random_state=1, verbose=0, n_iter_max=3, reg_W=0.5).fit(X, y))),
-        fam="FTuckerReg")
+        fam="FTuckerReg", opts=dict(alt=True))
     add("cp_plsr_vector_y", "tensorly.regression.cp_plsr.CP_PLSR",
         lambda d: (lambda X=d.arr(6, 3, 4), Y=d.arr(6): (lambda m: (m.predict(X), m.fit_transform(X, Y), m.X_factors, m.Y_factors, m.coef_))(CP_PLSR(2, random_state=1).fit(X, Y))), fam="FPlsr")
     add("entropy_metrics", "tensorly.metrics.entropy.vonneumann_entropy",
@@ -2693,7 +2693,7 @@ def run(chk):
     chk.notes.append(f"source-level exact-dtype tie with default options: {len(dmeta)} further functions, {sum(len(m[2]) for m in dmeta)} outputs certified")
     # ---- 4b3. what stands behind the SHALLOW skeleton families (output = promotion of the inputs, nothing of the internals transcribed): for each of
     # their entry points, is the program extracted from its source certified to return exactly the data's dtype (which is what the shallow skeleton says)?
-    SHALLOW = {"FPure", "FTTCross", "FCpReg", "FTuckerReg", "FPlsr", "FMetric", "FIndexed", "FPermute", "FFlipSign"}
+    SHALLOW = {"FPure", "FTTCross", "FMetric", "FIndexed", "FPermute", "FFlipSign"}
     ok_all = {m[0] for i, m in enumerate(emeta) if i not in efailing}
     ok_def = {m[0] for i, m in enumerate(dmeta) if i not in dfailing}
     shallow = {}
